@@ -38,6 +38,10 @@ func expInit() error {
 	return os.Chdir(filepath.Join(base, "w", "r"))
 }
 
+// relBase: the root location as a relative path with a directory part (for these entries the child
+// steps up to <scratch>/w for the duration of the call; the root is the file r/.root)
+const relBase = "r/.root"
+
 // mapCache is a caller-supplied ResolutionCache.
 type mapCache struct {
 	m map[string]interface{}
@@ -55,7 +59,7 @@ func newObs(c *expCase) *expObs {
 		Docs: []docObs{}, Nodes: []PNode{}, Entries: []entryObs{}, Loads: []AURL{}, LoadsS: []string{}, LoadOK: []bool{},
 		Concrete: []string{}, DocURLs: []string{}, FailURL: c.FailURL, Preload: c.Preload, Det: true, RootSame: true, OptsSame: true,
 		Collide: []bool{}, Events: [][]string{}, Cached: []AURL{}, Cache: c.Cache, DefSame: true, SameFull: true,
-		Names: c.Names, Spell: c.Spell, Reps: c.Reps}
+		Names: c.Names, Spell: c.Spell, Reps: c.Reps, Site: c.Site}
 	if c.Entry == "SkipThenFull" {
 		obs.Opts.Skip = false // what is judged is the final, full expansion
 	}
@@ -75,7 +79,7 @@ func newObs(c *expCase) *expObs {
 }
 
 func isElementEntry(e string) bool {
-	return e != "" && e != "ExpandSpec" && e != "SkipThenFull" && e != "ExpandSpec2"
+	return e != "" && !strings.HasPrefix(e, "ExpandSpec") && e != "SkipThenFull"
 }
 
 func elementKind(entry string) string {
@@ -305,8 +309,16 @@ func callExpand(c *expCase, cc *concrete, docBytes map[string][]byte, ld *recLoa
 		return &spec.ExpandOptions{RelativeBase: cc.urls[0], SkipSchemas: c.Opts.Skip, ContinueOnError: c.Opts.Cont,
 			AbsoluteCircularRef: c.Opts.Abs, PathLoader: ld.load}
 	}
+	if strings.HasSuffix(c.Entry, ":nobase") {
+		base := mkOpts
+		mkOpts = func() *spec.ExpandOptions { o := base(); o.RelativeBase = ""; return o }
+	}
 	optsEq := func(o *spec.ExpandOptions) bool {
-		return o.RelativeBase == cc.urls[0] && o.SkipSchemas == c.Opts.Skip && o.ContinueOnError == c.Opts.Cont &&
+		want := cc.urls[0]
+		if strings.HasSuffix(c.Entry, ":nobase") {
+			want = ""
+		}
+		return o.RelativeBase == want && o.SkipSchemas == c.Opts.Skip && o.ContinueOnError == c.Opts.Cont &&
 			o.AbsoluteCircularRef == c.Opts.Abs && o.PathLoader != nil
 	}
 	fail := func(outcome, msg string) callResult {
@@ -314,7 +326,7 @@ func callExpand(c *expCase, cc *concrete, docBytes map[string][]byte, ld *recLoa
 		return res
 	}
 	switch c.Entry {
-	case "", "ExpandSpec", "SkipThenFull", "ExpandSpec2":
+	case "", "ExpandSpec", "SkipThenFull", "ExpandSpec2", "ExpandSpec:nobase", "ExpandSpec2:nobase":
 		var sw spec.Swagger
 		if err := json.Unmarshal(rootSrc, &sw); err != nil {
 			return fail("harness-error", "root does not decode: "+err.Error())
@@ -323,7 +335,7 @@ func callExpand(c *expCase, cc *concrete, docBytes map[string][]byte, ld *recLoa
 		if c.Entry == "SkipThenFull" {
 			opts.SkipSchemas = true
 		}
-		if c.Entry == "ExpandSpec2" {
+		if strings.HasPrefix(c.Entry, "ExpandSpec2") {
 			// a first expansion of the same root with the very same options value
 			var sw0 spec.Swagger
 			_ = json.Unmarshal(rootSrc, &sw0)
@@ -410,6 +422,48 @@ func callExpand(c *expCase, cc *concrete, docBytes map[string][]byte, ld *recLoa
 		cache = mc
 	case "reuse":
 		cache = shared
+	case "foreignempty", "foreignsuper":
+		// a cache that served an expansion against ANOTHER root before: one without any of the sections,
+		// or one that also has what this root lacks
+		mc := &mapCache{m: map[string]interface{}{}}
+		var other map[string]interface{}
+		_ = json.Unmarshal(rootSrc, &other)
+		if c.Cache == "foreignempty" {
+			for _, sct := range []string{"definitions", "parameters", "responses"} {
+				delete(other, sct)
+			}
+			other["paths"] = map[string]interface{}{}
+		} else {
+			for _, sct := range []string{"definitions", "parameters", "responses"} {
+				m, _ := other[sct].(map[string]interface{})
+				if m == nil {
+					m = map[string]interface{}{}
+					other[sct] = m
+				}
+				for i := 1; i <= len(c.Nodes); i++ {
+					switch sct {
+					case "definitions":
+						m["Missing"+fmt.Sprint(i)] = map[string]interface{}{"title": "foreign"}
+					case "parameters":
+						m["Missing"+fmt.Sprint(i)] = map[string]interface{}{"name": "foreign", "in": "query", "type": "string"}
+					default:
+						m["Missing"+fmt.Sprint(i)] = map[string]interface{}{"description": "foreign"}
+					}
+				}
+			}
+		}
+		var dsw spec.Swagger
+		if json.Unmarshal(mustJSON(other), &dsw) == nil {
+			ds := spec.Schema{}
+			ds.Title = "foreign"
+			var foreign interface{} = &dsw
+			if c.Entry == "ExpandSchema:generic" {
+				foreign = other
+			}
+			_ = spec.ExpandSchema(&ds, foreign, mc)
+			markCall()
+		}
+		cache = mc
 	case "foreignroot":
 		// a cache that served an expansion against ANOTHER root (same shape, other labels) before
 		mc := &mapCache{m: map[string]interface{}{}}
@@ -429,6 +483,12 @@ func callExpand(c *expCase, cc *concrete, docBytes map[string][]byte, ld *recLoa
 	oldLoader := spec.PathLoader
 	spec.PathLoader = ld.load
 	defer func() { spec.PathLoader = oldLoader }()
+	if strings.HasSuffix(c.Entry, ":relbase") {
+		if err := os.Chdir(filepath.Join(cwdPrefix, "w")); err != nil {
+			return fail("harness-error", err.Error())
+		}
+		defer func() { _ = os.Chdir(filepath.Join(cwdPrefix, "w", "r")) }()
+	}
 
 	var rootArg interface{}
 	var before []byte
@@ -472,7 +532,7 @@ func callExpand(c *expCase, cc *concrete, docBytes map[string][]byte, ld *recLoa
 		res.optsSame = opts.RelativeBase == "" && opts.PathLoader != nil && opts.ContinueOnError == c.Opts.Cont &&
 			opts.AbsoluteCircularRef == c.Opts.Abs && !opts.SkipSchemas
 		outv = &s
-	case "ExpandParameterWithRoot", "ExpandParameter":
+	case "ExpandParameterWithRoot", "ExpandParameter", "ExpandParameter:relbase":
 		var pr spec.Parameter
 		if e := json.Unmarshal(elemJSON, &pr); e != nil {
 			return fail("harness-error", e.Error())
@@ -480,11 +540,13 @@ func callExpand(c *expCase, cc *concrete, docBytes map[string][]byte, ld *recLoa
 		if c.Entry == "ExpandParameterWithRoot" {
 			snap(&sw)
 			err = spec.ExpandParameterWithRoot(&pr, &sw, cache)
+		} else if c.Entry == "ExpandParameter:relbase" {
+			err = spec.ExpandParameter(&pr, relBase)
 		} else {
 			err = spec.ExpandParameter(&pr, cc.urls[0])
 		}
 		outv = &pr
-	case "ExpandResponseWithRoot", "ExpandResponse":
+	case "ExpandResponseWithRoot", "ExpandResponse", "ExpandResponse:relbase":
 		var rs spec.Response
 		if e := json.Unmarshal(elemJSON, &rs); e != nil {
 			return fail("harness-error", e.Error())
@@ -492,6 +554,8 @@ func callExpand(c *expCase, cc *concrete, docBytes map[string][]byte, ld *recLoa
 		if c.Entry == "ExpandResponseWithRoot" {
 			snap(&sw)
 			err = spec.ExpandResponseWithRoot(&rs, &sw, cache)
+		} else if c.Entry == "ExpandResponse:relbase" {
+			err = spec.ExpandResponse(&rs, relBase)
 		} else {
 			err = spec.ExpandResponse(&rs, cc.urls[0])
 		}
